@@ -480,6 +480,11 @@ class Fn:
             env = dict(env)
             if isinstance(tgt, ast.Name):
                 env[tgt.id] = val
+            elif isinstance(tgt, (ast.Tuple, ast.List)) and all(isinstance(x, ast.Name) for x in tgt.elts) \
+                    and val.ty == "T" and val.expr[0] == "tuple" and len(val.expr[1]) == len(tgt.elts):
+                # tuple unpacking of a (helper's) returned tuple of scalars
+                for x, e in zip(tgt.elts, val.expr[1]):
+                    env[x.id] = Val(e[1], "R", "s") if e[0] == "fin" else Val(e, "X")
             elif isinstance(tgt, ast.Subscript) and isinstance(tgt.value, ast.Name):
                 old = self.ev(tgt.value, env)
                 m = self.ev(tgt.slice, env)
@@ -736,7 +741,7 @@ def translate_member(source, t):
     rel, cls, member, name = t["file"], t["cls"], t["member"], t["name"]
     node, info, where, defcls = source.find_member(rel, cls, member)
     label = f"{cls}.{member}" if cls else member
-    fn = Fn(info, label, source if cls is None else None, rel)
+    fn = Fn(info, label, source, where)      # module-level helpers of the defining file are inlined (methods too)
     static = ""
     if isinstance(node, ast.FunctionDef):
         a = node.args
